@@ -298,7 +298,9 @@ fn step(ctx: &mut Ctx, id: &str, t: &[&str]) -> String {
             };
             let ver = version(t.get(4).copied().unwrap_or("V3"));
             let threads = ctx.threads;
-            let r = in_pool(threads, || verifier.verify_with_version(proof, &pi, ver));
+            // without an explicit version the plain public entry point is used (what callers use)
+            let explicit = t.get(4).is_some();
+            let r = in_pool(threads, || if explicit { verifier.verify_with_version(proof, &pi, ver) } else { verifier.verify(proof, &pi) });
             #[cfg(feature = "std")]
             let chs = if threads == 0 {
                 dusk_plonk::verif::last_challenges().iter().map(hex_of_fr).collect::<Vec<_>>().join(",")
